@@ -74,9 +74,14 @@ def run(ctx):
         # that touches process-global state; a third of the same-grid pairs per run (rotating by seed)
         same = [h for h in hs if all(st[1] == 1 for st in h)]
         cross = [h for h in hs if h[0][1] != h[1][1]]
+        # always: pairs that start with one of the few operations that restructure the grid's dataset
+        # (chunking, deriving a grid, exporting, an explicit area computation); the rest rotates with the seed
+        always = [h for h in same if h[0][0] in ("Chunk", "Derive", "ToXarray", "ComputeAreas")]
+        same = [h for h in same if h[0][0] not in ("Chunk", "Derive", "ToXarray", "ComputeAreas")]
         rng.shuffle(same)
         rng.shuffle(cross)
-        hs = same[: 4200] + cross[: 1400]
+        hs = always + same[: max(0, 4200 - len(always))] + cross[: 1400]
+        ctx.note("pairs_always_replayed", len(always))
     # three-step histories within one cache family (a wrapper switched away and back, a cache hit
     # after an uncached call with other arguments): all of them for the trees, a sample for plotting
     tree3 = gc.generate(ctx, ["trees", "norec"], 3, [], "all histories of three tree requests on one grid", handles=(1, 2), base=(1, 2), workers=8)
